@@ -230,7 +230,16 @@ class PropertyRun:
                 if isinstance(v, z3.ExprRef):
                     state[k] = z3.is_true(model.eval(v, model_completion=True)) if z3.is_bool(v) else eval_int(model, v)
                 elif isinstance(v, Tn):
-                    state[k + '.shape'] = [eval_int(model, d) for d in v.shape]
+                    shp = [eval_int(model, d) for d in v.shape]
+                    state[k + '.shape'] = shp
+                    n = 1
+                    for d in shp:
+                        n *= max(d, 0)
+                    if 0 < n <= 256:
+                        from .concrete import concretize_tensor
+                        t = concretize_tensor(model, v)
+                        if t is not None:
+                            state[k] = t.tolist()
                 elif isinstance(v, (int, bool, str)) or v is None:
                     state[k] = v
             key = json.dumps(state, sort_keys=True, default=str)
